@@ -26,7 +26,7 @@ cvars == <<arch, base, secs, cur, labels, refs, phase, bad, seen, atab>>
 
 PcRelKinds == {"jmp", "jcc", "call", "jecxz", "loop", "riprel", "b26", "b19", "b14", "adr", "adrp"}
 AbsKinds == {"embedlabel", "abs32"}
-TargetKinds == {"absjmp", "absmem"}            \* references to absolute addresses (no label)
+TargetKinds == {"absjmp", "absmem", "absadr", "absadrp"}            \* references to absolute addresses (no label)
 LabelKinds == PcRelKinds \cup AbsKinds \cup {"embeddelta"}
 
 Sec(s) == secs[s]
@@ -175,6 +175,9 @@ ExactTarget(r, bs) ==
   LET A == r.target IN
   CASE r.kind = "absjmp" /\ arch = "a64" -> LET E == WSub(A, WAdd(base, SiteOf(r))) IN
                                                WIsMultiple(E, 2) /\ WFitsSigned(E, 28) /\ WInt(A64Imm26(bs) * 4) = E
+    [] r.kind = "absadr" -> LET E == WSub(A, WAdd(base, SiteOf(r))) IN WFitsSigned(E, 21) /\ WInt(A64Imm21(bs)) = E
+    [] r.kind = "absadrp" ->      \* Xd = Page(PC) + imm21 * 4096 must be the page of the absolute target
+         LET E == WShrK(WSub(Page(A), Page(WAdd(base, SiteOf(r)))), 12) IN WFitsSigned(E, 21) /\ WInt(A64Imm21(bs)) = E
     [] r.kind = "absjmp" /\ arch # "a64" ->
          LET k == Skip(bs) op == bs[k + 1] IN
          CASE op \in {232, 233} -> SameAddr(WAdd(EndOfInst(r), WSignedFromBytes(Sub(bs, k + 1, 4))), A)
